@@ -17,7 +17,7 @@ func (a Addr) String() string  { return a.S }
 
 type Conn struct {
 	Name    string
-	in      []byte
+	in      [][]byte // fragments, read one at a time (a Read never crosses a fragment boundary)
 	eof     bool
 	rerr    error
 	Closed  bool
@@ -30,6 +30,8 @@ type Conn struct {
 	Remote  Addr
 	WScript []WOutcome // scripted write outcomes (fault injection)
 	ReadPos int
+	ClosedAt time.Duration // virtual time of the first Close
+	CloseBy  string
 }
 
 type WOutcome struct {
@@ -43,7 +45,12 @@ func NewConn(name string) *Conn {
 
 // ---- peer side (called from harness/env threads)
 
-func (c *Conn) Deliver(b []byte) { c.in = append(c.in, b...); vs.Touch(c, "deliver") }
+func (c *Conn) Deliver(b []byte) {
+	if len(b) > 0 {
+		c.in = append(c.in, append([]byte{}, b...))
+	}
+	vs.Touch(c, "deliver")
+}
 func (c *Conn) PeerEOF()         { c.eof = true; vs.Touch(c, "eof") }
 func (c *Conn) PeerErr(e error)  { c.rerr = e; vs.Touch(c, "rerr") }
 
@@ -66,8 +73,17 @@ func (c *Conn) Read(p []byte) (int, error) {
 		return 0, ErrClosed
 	}
 	if len(c.in) > 0 {
-		n := copy(p, c.in)
-		c.in = c.in[n:]
+		n := copy(p, c.in[0])
+		if n == len(c.in[0]) {
+			c.in = c.in[1:]
+		} else {
+			c.in[0] = c.in[0][n:]
+		}
+		h := uint64(n)
+		for _, x := range p[:n] {
+			h = h*1099511628211 ^ uint64(x)
+		}
+		vs.Fold(h)
 		return n, nil
 	}
 	if c.rerr != nil {
@@ -135,6 +151,10 @@ func (c *Conn) Close() error {
 	}
 	vs.BlockObj("net.close:"+c.Name, c, func() bool { return true })
 	c.NClose++
+	if !c.Closed {
+		c.ClosedAt = vs.Now()
+		c.CloseBy = vs.CurName()
+	}
 	c.Closed = true
 	vs.Event("transport %s closed by %s", c.Name, "library")
 	return nil
